@@ -10,6 +10,7 @@ from ..procmodel import make_config
 from ..oracle import Oracle
 from ..values import *
 from ..repo import AnalysisError, FuncInfo
+from ..structural import expand
 
 EXPL = ("P1 purity: an interprocedural effect/alias analysis (objects tagged by the parameter they are reachable from and by "
         "depth; shallow copies share inner levels) computes the write set of fit, find_best_fit, fit_vle, both objective functions, "
@@ -64,12 +65,17 @@ def run(ck):
         for c in calls:
             kw = {k.arg: k.value for k in c.keywords}
             x0 = kw.get("x0")
+            if x0 is not None:
+                x0 = expand(x0, f.node)
             names = {n.id for n in ast.walk(x0) if isinstance(n, ast.Name)} if x0 is not None else {"?"}
             allowed = {"numpy", "_n", "_m", "n", "m"}
             ck.ob("P2", name, "optimiser start vector is a constant or depends only on the orders", f.loc(c), x0 is not None and names <= allowed,
                   found=ast.unparse(x0) if x0 is not None else "no x0")
             meth = kw.get("method")
-            okm = isinstance(meth, ast.Constant) or (isinstance(meth, ast.Name) and meth.id in ("alg",))
+            if meth is not None:
+                meth = expand(meth, f.node)
+            loop_vars = {x.id for l in ast.walk(f.node) if isinstance(l, ast.For) for x in ast.walk(l.target) if isinstance(x, ast.Name)}
+            okm = isinstance(meth, ast.Constant) or (isinstance(meth, ast.Name) and meth.id in loop_vars)
             ck.ob("P2", name, "optimisation method is a constant or the loop's method name", f.loc(c), okm,
                   found=ast.unparse(meth) if meth is not None else "default")
     # P3
@@ -96,6 +102,11 @@ def check_best_of(ck, repo, f: FuncInfo, data_param, grid):
             for st in n.body:
                 if isinstance(st, ast.Assign) and len(st.targets) == 1 and isinstance(st.targets[0], ast.Name):
                     assigns[st.targets[0].id] = st.value
+                elif isinstance(st, ast.Assign) and len(st.targets) == 1 and isinstance(st.targets[0], ast.Tuple) and isinstance(st.value, ast.Tuple) \
+                        and len(st.targets[0].elts) == len(st.value.elts):
+                    for t, v in zip(st.targets[0].elts, st.value.elts):
+                        if isinstance(t, ast.Name):
+                            assigns[t.id] = v
             if b in assigns and isinstance(assigns[b], ast.Name) and assigns[b].id == a:
                 found = (n, a, op, b, assigns)
     ck.ob("P3", f.qualname, "selection 'if loss < best_loss: best, best_loss = candidate, loss' present", f.loc(), found is not None)
@@ -126,8 +137,11 @@ def check_best_of(ck, repo, f: FuncInfo, data_param, grid):
     loss_defs = [st for st in loop.body if isinstance(st, ast.Assign) and any(isinstance(t, ast.Name) and t.id == loss for t in st.targets)]
     ck.ob("P3", f.qualname, "loss of the candidate is computed in the same iteration", where, len(loss_defs) == 1)
     if len(loss_defs) == 1:
-        names = {x.id for x in ast.walk(loss_defs[0].value) if isinstance(x, ast.Name)}
         cand_names = {x.id for x in ast.walk(cand_expr) if isinstance(x, ast.Name)}
+        # temporaries and local one-expression helpers are substituted away; the candidate itself is kept by name
+        loss_value = expand(loss_defs[0].value, f.node, keep=cand_names | {loss})
+        loss_defs = [ast.Assign(targets=loss_defs[0].targets, value=loss_value, lineno=loss_defs[0].lineno, col_offset=0)]
+        names = {x.id for x in ast.walk(loss_value) if isinstance(x, ast.Name)}
         # the candidate may be referenced through a variable it was derived from in this iteration (e.g. result -> result.x)
         ck.ob("P3", f.qualname, "loss is computed from the caller's own data", f.loc(loss_defs[0]), data_param in names,
               "the data the loss is evaluated on must be the function's parameter %r, not a working copy" % data_param,
@@ -150,7 +164,8 @@ def check_best_of(ck, repo, f: FuncInfo, data_param, grid):
                       (isinstance(v, ast.Constant) and isinstance(v.value, (int, float)) and v.value > 0) or \
                       (isinstance(v, ast.Call) and ast.unparse(v) in ("float('inf')", 'float("inf")'))
     ck.ob("P3", f.qualname, "best loss starts at +inf or a positive constant bound", where, init_ok, found=str(init_src))
-    rets = [r for r in ast.walk(f.node) if isinstance(r, ast.Return) and r.value is not None]
+    inner = {id(x) for d in ast.walk(f.node) if isinstance(d, (ast.FunctionDef, ast.Lambda)) and d is not f.node for x in ast.walk(d)}
+    rets = [r for r in ast.walk(f.node) if isinstance(r, ast.Return) and r.value is not None and id(r) not in inner]
     ok_ret = bool(rets) and all(best in {x.id for x in ast.walk(r.value) if isinstance(x, ast.Name)} for r in rets)
     ck.ob("P3", f.qualname, "the accumulator is what is returned", f.loc(rets[0]) if rets else where, ok_ret,
           found="; ".join(ast.unparse(r.value) for r in rets))
@@ -161,7 +176,10 @@ def check_best_of(ck, repo, f: FuncInfo, data_param, grid):
             ck.ob("P3", f.qualname, "with a given order %s every order 0..%s is tried" % (p, p), f.loc(), ok)
         loops = [l for l in ast.walk(f.node) if isinstance(l, ast.For)]
         nested = any(isinstance(x, ast.For) and x is not l for l in loops for x in ast.walk(l) if x is not l)
-        ck.ob("P3", f.qualname, "candidates form the full n x m grid (nested loops)", f.loc(), nested)
+        # the same grid written as one loop over the cartesian product of the two candidate lists
+        it = expand(loop.iter, f.node)
+        product = isinstance(it, ast.Call) and ast.unparse(it.func) in ("itertools.product", "product") and len(it.args) == 2 and not it.keywords
+        ck.ob("P3", f.qualname, "candidates form the full n x m grid (nested loops or their cartesian product)", f.loc(), nested or product)
         fits = [c for c in ast.walk(loop) if isinstance(c, ast.Call) and ast.unparse(c.func) == "fit"]
         ok = False
         if len(fits) == 1:
@@ -215,6 +233,15 @@ def check_function_forms(ck, repo):
                 isinstance(al, Num) and "array" in str(al.r)
             found = "alpha=%r a=%r b=%r" % (al, a, b)
     ck.ob("P4", fa.qualname, "coefficient vector is split as [alpha | a (n values) | b (the rest)]", fa.loc(), ok, found=found[:300])
-    asserts = [n for n in ast.walk(fa.node) if isinstance(n, ast.Assert)]
-    ck.ob("P4", fa.qualname, "length of the coefficient vector is checked against 2 + n + m", fa.loc(),
-          any("2 + n + m" in ast.unparse(a.test) or "n + m + 2" in ast.unparse(a.test) for a in asserts))
+    n_, m_ = Rat.sym("n", ("int",)), Rat.sym("m", ("int",))
+    okl = False
+    conds = []
+    for o in outs:
+        for e in o.events:
+            if e.kind == "assert-cond" and isinstance(e.data, tuple) and len(e.data) == 3 and e.data[0] == "eq" \
+                    and isinstance(e.data[1], Rat) and isinstance(e.data[2], Rat):
+                d = e.data[1] - e.data[2]
+                conds.append(str(d))
+                for sign in (1, -1):
+                    okl = okl or (sign * d + (n_ + m_ + 2)).single_atom() is not None and "len(" in str(sign * d + (n_ + m_ + 2))
+    ck.ob("P4", fa.qualname, "length of the coefficient vector is checked against 2 + n + m", fa.loc(), okl, found="; ".join(conds)[:200])
